@@ -87,6 +87,7 @@ structure BV where
   bindCap : Nat
   muxAlive : Bool
   dead : Bool
+  srcEnded : Bool           -- the source has yielded `None` or an error
 
 def bindPark : Option Park → Option BindIn
   | some (.bind b) => some b
@@ -96,7 +97,7 @@ def bindPark : Option Park → Option BindIn
 def bview (e : EP) (l : List WsIn) : BV :=
   { flows := e.flows, fids := e.objs.map (·.fid), rng := e.rng, inbox := l, outq := e.outq,
     outClosed := e.outClosed, bindq := e.bindq, park := bindPark e.park, held := e.held, dq := e.droppedq,
-    bindCap := e.opts.bindCap, muxAlive := e.muxAlive, dead := e.dead }
+    bindCap := e.opts.bindCap, muxAlive := e.muxAlive, dead := e.dead, srcEnded := e.srcEnded }
 
 /-- A stream frame (`Connect`, `Acknowledge`, `Finish`, `Push`) of flow `y`. -/
 def streamFrame : Frame → Nat → Bool
@@ -127,6 +128,20 @@ def OkEnq (v : BV) : Msg → Prop
   | .frame (.reset y) => RstOk v y
   | _ => True
 
+/-- An ANSWER frame for flow `x`: `Finish x` (`some true`) or `Reset x` (`some false`). -/
+def ansOf (x : Nat) : Msg → Option Bool
+  | .frame (.finish f) => if f = x then some true else none
+  | .frame (.reset f) => if f = x then some false else none
+  | _ => none
+
+/-- The answers for flow `x` among messages, in order. -/
+def ans (x : Nat) (l : List Msg) : List Bool := l.filterMap (ansOf x)
+
+theorem ans_append (x : Nat) (a b : List Msg) : ans x (a ++ b) = ans x a ++ ans x b := by simp [ans]
+
+/-- The source has ended or failed, or will as soon as the inbox is read: later deliveries are ignored. -/
+def deafV (v : BV) : Bool := v.srcEnded || v.inbox.any (fun x => x == .eof || x == .err)
+
 /-- Nothing grows: slots are released, script values consumed, inbox items dropped, the outbound queue is
     kept or dropped (and may be closed), queued / parked binds dropped, the task may finish; the
     notifications change to ids that were there or are carried by a stream object (or the `0` of a dropped
@@ -145,10 +160,14 @@ structure Shrinks (v v' : BV) : Prop where
   bindCap : v'.bindCap = v.bindCap
   muxAlive : v'.muxAlive = v.muxAlive
   dead : v.dead = true → v'.dead = true
+  /-- the source is marked as ended only when an item that ends it was in the inbox -/
+  srcEnded : v'.srcEnded = true → v.srcEnded = true ∨ ∃ w ∈ v.inbox, (w == .eof || w == .err) = true
+  /-- no answer frame of a flow whose slot is a pending bind request is dropped from the inbox -/
+  pops : ∀ y r, lookup v.flows y = some (.bindRequested r) → ans y (inMsgs v'.inbox) = ans y (inMsgs v.inbox)
 
 theorem Shrinks.refl (v : BV) : Shrinks v v :=
   ⟨List.Sublist.refl _, rfl, List.suffix_refl _, List.suffix_refl _, Or.inl rfl, id, List.Sublist.refl _, Or.inl rfl,
-   rfl, fun _ h => Or.inr (Or.inl h), rfl, rfl, id⟩
+   rfl, fun _ h => Or.inr (Or.inl h), rfl, rfl, id, fun h => Or.inl h, fun _ _ _ => rfl⟩
 
 /-- The atomic changes of a bind view, with the messages handed to the transport and the bind events. -/
 inductive BStep : BV → BV → List Msg → List BEv → Prop
